@@ -100,6 +100,38 @@ func VfC06_RoundRobin() {
 	}
 }
 
+// VfC06_RoundRobinPerService: the rotation of one service is not disturbed by the selections of
+// another service in the same process: both obtain their balancer from lb.New (as the TCP processor
+// does when it is created and on every policy update); service 2 selects 0..2 times over its own
+// host list between any two selections of service 1, which still gives each of its n hosts exactly
+// k of n*k consecutive selections.
+func VfC06_RoundRobinPerService() {
+	n := nd.Concrete(nd.IntRange("n", 2, nd.Param("hosts", 3)))
+	k := nd.Param("k", 2)
+	hs := vfHosts(n)
+	others := vfHosts(3)
+	b1 := New(service.LoadBalancePolicy_ROUND_ROBIN)
+	b2 := New(service.LoadBalancePolicy_ROUND_ROBIN)
+	counts := make([]int, n)
+	nd.PanicLabel("pick-host")
+	for i := 0; i < n*k; i++ {
+		m := nd.Concrete(nd.IntRange("other-service-selections", 0, 2))
+		for j := 0; j < m; j++ {
+			nd.Assert(vfIndexOf(others, b2.PickHost(others)) >= 0, "the selected host is a member of the candidate list")
+			nd.Cover("interleaved")
+		}
+		gi := vfIndexOf(hs, b1.PickHost(hs))
+		nd.Assert(gi >= 0, "the selected host is a member of the candidate list")
+		if gi < 0 {
+			return
+		}
+		counts[nd.Concrete(gi)]++
+	}
+	for i := 0; i < n; i++ {
+		nd.Assert(counts[i] == k, "round-robin gives each of n hosts exactly k of n*k consecutive selections, whatever other services select meanwhile")
+	}
+}
+
 // VfC06_RoundRobinConcurrent: two accepts selecting at the same time still get distinct hosts out
 // of two (each of n hosts exactly k of n*k selections, here n=2, k=1), whatever the interleaving
 // of their atomic operations.
